@@ -18,8 +18,8 @@ class JSText:
 
     _n = 0
 
-    def __init__(self, tree, indent=None, suffix=""):
-        self.tree, self.indent, self.suffix = tree, indent, suffix
+    def __init__(self, tree, indent=None, suffix="", ascii=True):
+        self.tree, self.indent, self.suffix, self.ascii = tree, indent, suffix, ascii
         JSText._n += 1
         self.length = z3.Int(f"jslen!{JSText._n}")
         self.concrete = None
@@ -32,7 +32,7 @@ class JSText:
                 if t[0] == "arr":
                     return [plain(x) for x in t[1]]
                 return {k: plain(v) for k, v in t[1]}
-            self.concrete = json.dumps(plain(tree), indent=indent) + suffix
+            self.concrete = json.dumps(plain(tree), indent=indent, ensure_ascii=ascii) + suffix
             self.length = len(self.concrete)
         except Exception:
             pass
@@ -49,7 +49,7 @@ class JSText:
 
     def __add__(self, other):
         if isinstance(other, str):
-            return JSText(self.tree, self.indent, self.suffix + other)
+            return JSText(self.tree, self.indent, self.suffix + other, self.ascii)
         return NotImplemented
 
     def __repr__(self):
@@ -80,10 +80,25 @@ def tree_of(it, obj, default, depth=0):
     return tree_of(it, it.call(default, [obj], {}), default, depth + 1)
 
 
-def m_dumps(it, obj, *, default=None, indent=None, **kw):
+def text_leaves(t):
+    """the text leaves and keys of a JSON tree"""
+    if t[0] == "leaf":
+        if isinstance(t[1], (str, SStr)):
+            yield t[1]
+    elif t[0] == "arr":
+        for x in t[1]:
+            yield from text_leaves(x)
+    else:
+        for k, v in t[1]:
+            if isinstance(k, (str, SStr)):
+                yield k
+            yield from text_leaves(v)
+
+
+def m_dumps(it, obj, *, default=None, indent=None, ensure_ascii=True, **kw):
     note("json", "dumps/loads are modelled as the JSON tree: dict (string keys, order kept) / list / str / int / float / bool / None; `default` is called once per other object; "
          "loads(dumps(x)) rebuilds the tree (arrays as lists) and calls object_hook bottom-up on every object")
-    return JSText(tree_of(it, obj, default), indent)
+    return JSText(tree_of(it, obj, default), indent, ascii=bool(it.unbase(ensure_ascii)) if it.concrete(it.unbase(ensure_ascii)) else True)
 
 
 def untree(it, t, hook):
